@@ -818,6 +818,11 @@ class SecureHomeKitConnection(HomeKitConnection):
                     self._pair_verify_failed_hosts.add(_normalize_host(self.connected_host))
                 self._drop_transport()
                 raise
+            except BaseException:
+                # Pair verify failed (or was cancelled): the connection we just opened
+                # is of no use and must not stay open when the next attempt replaces it.
+                self._drop_transport()
+                raise
 
         # Secure session has been negotiated - switch protocol so all future messages are encrypted
         self.protocol = SecureHomeKitProtocol(
